@@ -30,6 +30,39 @@ def generate(repo):
     out.append("Definition same_value_scores_pos_else_neg : bool := %s.\n" % ("true" if ok else "false"))
     ur = 'if (((strcasecmp(v1, "ucs4") == 0) && (strcasecmp(v, "ucs2") == 0))) { best = posMatch; best--; }' in txt
     out.append("Definition ucs2_table_matches_ucs4_query_minus_one : bool := %s.\n" % ("true" if ur else "false"))
+    # language tags: matchLanguageTags and the language branch of matchFeatureLists
+    ltxt = txt
+    _, lbody = func(repo, "metadata.c", "matchLanguageTags")
+    lconsts = {}
+    for st in lbody:
+        if st[0] == "decl" and "const int" in st[1]:
+            for name, dims, init in st[2]:
+                lconsts[name] = eval_const(init, lconsts)
+    for n in ("POS_MATCH", "EXTRA"):
+        if n not in lconsts:
+            raise cparse.ParseError("language weight %s not found" % n)
+        out.append("Definition L_%s : Z := %s.\n" % (n, "%d" % lconsts[n] if lconsts[n] >= 0 else "(%d)" % lconsts[n]))
+    mt = " ".join(show_stmt(s) for s in lbody)
+    head = "decl int q=POS_MATCH; if ((*range->head == 42)) q += EXTRA; else if ((strcasecmp(tag->head, range->head) != 0)) return 0; range = range->tail; tag = tag->tail;"
+    walk = ("while (range) { if (!tag) return 0; if ((strcasecmp(tag->head, range->head) == 0)) { range = range->tail; tag = tag->tail; continue; } "
+            "else if ((strlen(tag->head) == 1)) return 0; else q += EXTRA; tag = tag->tail; } while (tag) { q += EXTRA; tag = tag->tail; } return q;")
+    out.append("(* matchLanguageTags: a wildcard head of the range costs EXTRA, other heads must be equal *)\n")
+    out.append("Definition lang_head_is_reference : bool := %s.\n" % ("true" if head in mt else "false"))
+    out.append("(* ... then the two loops: equal subtags advance both, a one-character subtag of the tag stops, others cost EXTRA *)\n")
+    out.append("Definition lang_walk_is_reference : bool := %s.\n" % ("true" if mt.endswith(walk) else "false"))
+    m = re.search(r"decl int q=matchLanguageTags\(v1, v\); if \((.*?)\) best = q; else if \((.*?)\) extraLanguages \+= extra;", ltxt)
+    if not m:
+        raise cparse.ParseError("language branch of matchFeatureLists")
+    pr = cparse.ToZ({"q": "q", "best": "best"})
+    out.append("Definition src_lang_keeps (q best : Z) : bool := %s.\n" % pr.b(cparse.parse_expr(m.group(1))))
+    out.append("Definition src_lang_counts_extra (q : Z) : bool := %s.\n" % pr.b(cparse.parse_expr(m.group(2))))
+    m = re.search(r"if \(\((best [<>=!]+ -?\d+)\)\) best \+= (\(.*?\)); \} else \{ while", ltxt)
+    if not m:
+        raise cparse.ParseError("language penalty")
+    pr = cparse.ToZ({"best": "best", "extraLanguages": "e"})
+    out.append("Definition src_lang_penalty_applies (best : Z) : bool := %s.\n" % pr.b(cparse.parse_expr(m.group(1))))
+    out.append("Definition src_lang_penalty (e : Z) : Z := %s.\n" % pr.z(cparse.parse_expr(m.group(2))))
+    out.append("Definition lang_branch_tests_every_entry : bool := %s.\n" % ("true" if "decl int extraLanguages=0; while (1) { decl List * v=l->head->val; decl List * v1=l1->head->val; decl int q=matchLanguageTags(v1, v);" in ltxt else "false"))
     # lou_findTable
     _, body = func(repo, "metadata.c", "lou_findTable")
     txt = " ".join(show_stmt(s) for s in body)
